@@ -27,6 +27,9 @@ pub enum Assembly {
     /// finish_error: whatever the library does with the abandoned row, the client must not be
     /// handed a message the server never meant to send
     AbandonedRow { written: usize },
+    /// a row of 17-70 MB laid out against the packet boundaries (see gens::gen_big_layout_row);
+    /// `target` is unused
+    Layout { bin: bool, cols: Vec<ColSpec>, row: RowProg },
 }
 
 #[derive(Clone, Debug, Serialize, Deserialize)]
@@ -41,6 +44,12 @@ pub struct Case {
     pub post_rows: usize,
     pub write_accept: Vec<usize>,
     pub bin_as_str: bool,
+    /// a one-off transport error at the write()/flush() call number `at` (per mille of the calls of
+    /// the fault-free run) with the given io::ErrorKind code (see transport::injected), after which
+    /// the transport works again: whatever the server does then, the bytes it has handed to the
+    /// transport must remain a prefix of the fault-free output
+    #[serde(default)]
+    pub fault: Option<(u32, u8)>,
 }
 
 const U24: usize = MAX_PAYLOAD;
@@ -152,6 +161,20 @@ impl Case {
                 let cmd = if bin { Cmd::Execute { id: 1, params: vec![], send_types: false, flags: 0, iterations: 1 } } else { Cmd::Query { text: Blob::text("big") } };
                 (cmd, prog, self.target)
             }
+            Assembly::Layout { bin, cols, row } => {
+                let mut rows = Vec::new();
+                let small = |k: usize| RowProg { cells: cols.iter().map(|_| Val { base: Base::U8(k as u8), wrap: Wrap::None }).collect(), form: RowForm::WriteRow, offers: vec![] };
+                for k in 0..self.pre_rows {
+                    rows.push(small(k));
+                }
+                rows.push(row.clone());
+                for k in 0..self.post_rows {
+                    rows.push(small(k));
+                }
+                let prog = Program { steps: vec![Step::Set { cols: cols.clone(), rows, end: SetEnd::Finish }] };
+                let cmd = if *bin { Cmd::Execute { id: 1, params: vec![], send_types: false, flags: 0, iterations: 1 } } else { Cmd::Query { text: Blob::text("layout") } };
+                (cmd, prog, 0)
+            }
             Assembly::ErrMsg => {
                 // ERR payload = 1 + 2 + 1 + 5 + msg
                 if self.target < 9 {
@@ -239,6 +262,7 @@ fn gen_case(g: &mut G<'_>, target: usize, assembly: Assembly) -> Case {
         post_rows: g.below(3) as usize,
         write_accept: if g.chance(1, 3) { vec![*g.pick(&[1usize << 16, 4096, 1 << 20, 77_777])] } else { vec![] },
         bin_as_str: g.coin(),
+        fault: None,
     }
 }
 
@@ -248,10 +272,10 @@ impl Prop for C04 {
         "C04"
     }
     fn rule(&self) -> String {
-        "cases = one logical server message of a chosen size, realised by an assembly (text row of 1-4 cells whose encoded sizes sum to the target with cell boundaries before/at/after the packet limit; binary row; ERR message; column definition with a huge name; a text row abandoned with finish_error after its first 1-2 cells were written), preceded/followed by ordinary rows and PINGs, optionally with short transport writes. Sizes: enumerated k*(2^24-1)+d for k in {1,2}, d in a window around 0, plus random sizes (small ones by the thousands). Oracle: independent framer over the raw output (consumed exactly; every fragment but the last of a long message is 0xFFFFFF bytes, the last shorter, possibly empty), reassembled messages decoded and compared with the values written. Non-trivial = message >= 2^24-1-8 bytes.".into()
+        "cases = one logical server message of a chosen size, realised by an assembly (text row of 1-4 cells whose encoded sizes sum to the target with cell boundaries before/at/after the packet limit; binary row; ERR message; column definition with a huge name; a text row abandoned with finish_error after its first 1-2 cells were written), preceded/followed by ordinary rows and PINGs, optionally with short transport writes; 1 case in 600 is instead a text or binary row of 17-70 MB laid out against the packet boundaries (cells of 1x-3x the packet size, several per row, small cells before / between / after). One case in four is run on a transport that fails once at a generated write()/flush() call (ConnectionReset, Other, BrokenPipe, TimedOut, WouldBlock or Interrupted; with short writes, so that the failure also falls inside packets) and works again afterwards: the bytes handed to the transport before and after the failure must be a prefix of the fault-free output. Sizes: enumerated k*(2^24-1)+d for k in {1,2}, d in a window around 0, plus random sizes (small ones by the thousands). Oracle: independent framer over the raw output (consumed exactly; every fragment but the last of a long message is 0xFFFFFF bytes, the last shorter, possibly empty), reassembled messages decoded and compared with the values written. Non-trivial = message >= 2^24-1-8 bytes.".into()
     }
     fn assumptions(&self) -> Vec<String> {
-        vec!["messages beyond ~2*(2^24-1)+70000 bytes are not explored".into()]
+        vec!["messages beyond ~4*(2^24-1) bytes are not explored".into()]
     }
     fn cases(&self, tier: Tier) -> u64 {
         tier.pick(30000, 300000)
@@ -275,7 +299,21 @@ impl Prop for C04 {
             3 => Assembly::ErrMsg,
             _ => Assembly::ColName,
         };
-        gen_case(g, target, assembly)
+        let mut c = if g.chance(1, 600) {
+            let bin = g.coin();
+            let (cols, row) = crate::gens::gen_big_layout_row(g, bin);
+            gen_case(g, 0, Assembly::Layout { bin, cols, row })
+        } else {
+            gen_case(g, target, assembly)
+        };
+        if !matches!(c.assembly, Assembly::AbandonedRow { .. }) && g.chance(1, 4) {
+            // a transport that fails once in the middle (a send timeout, EAGAIN, a signal) and then
+            // works again; short writes so that the failure falls inside packets too
+            let big = matches!(c.assembly, Assembly::Layout { .. }) || c.target > 100_000;
+            c.write_accept = if big { vec![*g.pick(&[1usize << 16, 1 << 20, 77_777, 5_000_000])] } else if g.chance(2, 3) { vec![*g.pick(&[1usize, 3, 7, 50, 1000])] } else { vec![] };
+            c.fault = Some((g.below(1001) as u32, *g.pick(&[0u8, 2, 3, 4, 4, 5, 5, 6])));
+        }
+        c
     }
     fn fixed(&self, tier: Tier) -> Vec<Case> {
         let mut v = Vec::new();
@@ -342,7 +380,7 @@ impl Prop for C04 {
             }
         };
         ex.nontrivial = big_len >= U24 - 8;
-        ex.class(format!("assembly:{}", match case.assembly { Assembly::TextRow { .. } => "text-row", Assembly::BinRow { .. } => "bin-row", Assembly::ErrMsg => "err-msg", Assembly::ColName => "col-name", Assembly::AbandonedRow { .. } => "abandoned-row" }));
+        ex.class(format!("assembly:{}", match case.assembly { Assembly::TextRow { .. } => "text-row", Assembly::BinRow { .. } => "bin-row", Assembly::ErrMsg => "err-msg", Assembly::ColName => "col-name", Assembly::AbandonedRow { .. } => "abandoned-row", Assembly::Layout { .. } => "row-laid-out-against-packet-boundaries" }));
         if big_len >= U24 {
             ex.class(format!("fragments:{}", frame_count(big_len)));
         }
@@ -352,6 +390,16 @@ impl Prop for C04 {
         let mut conv = conv;
         if matches!(case.assembly, Assembly::AbandonedRow { .. }) {
             conv.forget_on_refusal = true;
+        }
+        if let Assembly::Layout { row, .. } = &case.assembly {
+            ex.nontrivial = true;
+            for cl in crate::gens::classify_big_layout(row) {
+                ex.class(cl);
+            }
+        }
+        if let Some((at, kind)) = case.fault {
+            exec_fault(&conv, at, kind, &mut ex);
+            return ex;
         }
         let o = run_with(&conv, None, false);
         if let RunResult::Panic(p) = &o.result {
@@ -424,5 +472,57 @@ impl Prop for C04 {
         }
         // (sequence ids are C05's business and are checked there, also for >= 16 MiB responses)
         ex
+    }
+}
+
+
+/// A transport that fails once at one write()/flush() call and then works again.  Everything the
+/// server has handed to the transport - before and after the failure - must be a prefix of what it
+/// sends when nothing fails: a packet that was cut short can only be continued where it stopped
+/// (or the connection given up), never followed by other bytes.
+fn exec_fault(conv: &Conversation, at: u32, kind: u8, ex: &mut Exec) {
+    use crate::transport::{Fault, OpKind};
+    let base = run_with(conv, None, false);
+    if !base.result.is_ok() {
+        // the fault-free behaviour of this case is judged by the ordinary path
+        return;
+    }
+    let outs: Vec<usize> = base.ops.iter().enumerate().filter(|(_, op)| op.kind != OpKind::Read).map(|(i, _)| i).collect();
+    if outs.is_empty() {
+        return;
+    }
+    let k = outs[((at as usize) * (outs.len() - 1) + 500) / 1000];
+    let mut cc = conv.clone();
+    cc.fault = Fault::ErrOnce(k);
+    cc.fault_kind = kind;
+    let o = run_with(&cc, None, false);
+    let inside = base.ops[k].kind == OpKind::Write && {
+        // does the failing write() continue a packet of which a part was already accepted?
+        let (phys, _) = split_packets(&base.out);
+        phys.iter().any(|p| base.ops[k].at > p.start && base.ops[k].at < p.start + 4 + p.len)
+    };
+    ex.class(format!("one-off-transport-error:{}", match kind { 2 => "Other", 3 => "BrokenPipe", 4 => "TimedOut", 5 => "WouldBlock", 6 => "Interrupted", _ => "ConnectionReset" }));
+    if inside {
+        ex.class("failure-inside-a-packet");
+        ex.nontrivial = true;
+    }
+    if let RunResult::Panic(p) = &o.result {
+        ex.fail(format!("c04-panic|{}", panic_signature(p)), format!("run_on panicked after a transport error: {}", o.result.brief()));
+        return;
+    }
+    if !(o.out.len() <= base.out.len() && base.out[..o.out.len()] == o.out[..]) {
+        let common = o.out.iter().zip(&base.out).take_while(|(a, b)| a == b).count();
+        ex.fail(
+            "c04-bytes-after-failed-write",
+            format!(
+                "write/flush call {} failed once ({}); the server then handed {} bytes to the transport of which only the first {} continue the stream it sends without the failure ({} bytes): the client sees a malformed packet (run_on: {})",
+                k,
+                if inside { "inside a packet" } else { "at a packet boundary" },
+                o.out.len(),
+                common,
+                base.out.len(),
+                o.result.brief()
+            ),
+        );
     }
 }
